@@ -128,7 +128,7 @@ def run_harness_on(ctx, src, builds, args, nb, hname=None, timeout=900, extra=()
 AEAD_RULE = ("cases enumerate (variant, adlen, mlen) exhaustively over the window [0..W]^2 x repetitions; key/nonce/AD/"
              "plaintext bytes derive from (VERIF_SEED, case index) and cycle through 6 byte classes; buffer placement "
              "(end-guard / start-guard / mid+canary), alignment offsets 0..7 and aliasing mode rotate with the index. "
-             "A case class = (variant, adlen, mlen | long-bucket, byte class, aliasing, placement of c and m); "
+             "In some cases two inputs share memory (ad == m, nonce inside the key buffer). A case class = (variant, adlen, mlen | long-bucket, byte class, aliasing, placement of c and m); "
              "distinct_nontrivial counts distinct classes visited by at least one build.")
 
 
@@ -444,7 +444,7 @@ def c11(ctx):
     ctx.rule = ("(a) ALL 2^(n-1) compositions of every length n <= N into update calls (exhaustive), state object pre-filled with junk; "
                 "(b) for n <= NZ the same with a zero-length update (NULL, then non-NULL) at every gap; (c) random chunkings of messages up to 8 KiB "
                 "with sizes from {0..18,30..33,47..49,63..65,100,1000}; (d) random interleaved histories of init/reinit/update/finalize/free/overwrite-with-"
-                "stale-copy over 4 state objects, each judged against a shadow concatenation (one-shot + model); thorough: update(7) + update(2^32+46) and update(5) + update(2^32+3) against the same bytes fed in pieces below 2^32. class = (n, composition mask) or history index.")
+                "stale-copy over 4 state objects, each judged against a shadow concatenation (one-shot + model), and live states forked by a byte copy and used further (the fork is not judged, the state it was copied from is); thorough: update(7) + update(2^32+46) and update(5) + update(2^32+3) against the same bytes fed in pieces below 2^32. class = (n, composition mask) or history index.")
     ctx.rule += ' Supplementary ILP32 monitor: the portable sources compiled with gcc/clang -m32 (4-byte size_t, pointers and long; freestanding runtime, every buffer against a PROT_NONE page) and the production archive run the same deterministic case list (harness/h_abi.c, section hash) as the model; the outputs are compared line by line.'
     ctx.rule += ' Corpus replay: every entry of model/pinned/special.txt (inputs found with the model alone for which an internal word - chaining value, keystream, tag half, DRBG state - is 0 / ffffffff / equal to its neighbour, or a forged SIV tag is wrong in a structured way: probability about 2^-32 per random input) goes through the same oracle.'
     ctx.exhaustive = False
@@ -465,7 +465,7 @@ def c12(ctx):
     abi.ilp32_monitor(ctx, ['hmac'])
     ctx.rule = ("every key length 0..K (NULL for 0 in half the cases) x message lengths {0,1,15,16,17,31,32,33,63,64,65,127,128,200} + random "
                 "(key <= 300, message <= 4096); per case: one-shot vs RFC 2104 model, incremental with random chunking and the key at a different "
-                "address for finalize, reinit after an abandoned prefix, reinit after finalize; thorough: one-shot HMAC of 2^32+37 bytes vs the same bytes in updates below 2^32. class = (keylen, mlen, byte class).")
+                "address for finalize, reinit after an abandoned prefix, reinit after finalize, with a second HMAC object (80-byte key) started before and finished after; the message sometimes lies inside the key buffer; thorough: one-shot HMAC of 2^32+37 bytes vs the same bytes in updates below 2^32. class = (keylen, mlen, byte class).")
     ctx.rule += ' Supplementary ILP32 monitor: the portable sources compiled with gcc/clang -m32 (4-byte size_t, pointers and long; freestanding runtime, every buffer against a PROT_NONE page) and the production archive run the same deterministic case list (harness/h_abi.c, section hmac) as the model; the outputs are compared line by line.'
     ctx.rule += ' Corpus replay: (key, message) pairs whose INNER digest has a rare word pattern (model/pinned/special.txt, found with the model alone), one-shot, byte-wise, and with the state re-keyed afterwards.'
     ctx.exhaustive = False
